@@ -32,7 +32,7 @@ import numpy as np
 
 import vlib
 
-COQ_TARGETS = ["Proofs/ReadyProofs.vo"]
+COQ_TARGETS = ["Proofs/ReadyProofs.vo", "Proofs/ReadyEngineProofs.vo"]  # the deps of Properties/C19.v and Properties/C19b.v
 
 OPS = ["conjunction", "disjunction", "implication", "aggregation", "defuzzifier"]
 SHAPES = ["none", "and", "or", "both"]
